@@ -1776,6 +1776,9 @@ absolute = abs
 
 
 def isnan(a):
+    if not isinstance(a, ndarray) and hasattr(a, "__array_wrap__") and hasattr(a, "values") and isinstance(a.values, ndarray):
+        # NumPy's ufunc protocol for array-likes: compute on the array, hand the result to the object's __array_wrap__
+        return a.__array_wrap__(isnan(a.values))
     if isinstance(a, ndarray):
         if a.elem != "real":
             if a.elem in ("int", "bool"):
@@ -2133,6 +2136,17 @@ true_divide = _make_ufunc2("true_divide")
 divide = true_divide
 floor_divide = _make_ufunc2("floor_divide")
 power = _make_ufunc2("power")
+
+
+def invert(a):
+    """np.invert: logical not on boolean arrays (bitwise inversion of integers is outside the subset)"""
+    a = asarray(a)
+    if a.elem != "bool":
+        raise OutOfSubset("np.invert on non-boolean data")
+    return ~a
+
+
+logical_not = invert
 
 
 def interp(x, xp, fp, left=None, right=None, period=None):
@@ -2517,6 +2531,35 @@ def _along_axis(name, a, axis, kw, shape_rule):
             c.add(_forall_nd(out_shape, lambda *ix: z3.And(F(*ix) >= 0, F(*ix) < ext)))
         else:
             c.add(F >= 0, F < ext)
+    if base == "sum" and a.elem == "bool" and axis is not None and out_shape and ("boolsum", key) not in memo:
+        # counting law for the sum of a boolean array along an axis (what dropna's threshold test needs at its two ends):
+        # 0 <= count <= extent; count == 0 iff no cell is true; count == extent iff every cell is true (witnesses otherwise)
+        memo[("boolsum", key)] = True
+        ext = zint(a._shape[axis])
+        fa = a.snapshot()
+        w0 = z3.Function(fresh_name("np_sum.some_true"), *([z3.IntSort()] * len(out_shape) + [z3.IntSort()]))
+        w1 = z3.Function(fresh_name("np_sum.some_false"), *([z3.IntSort()] * len(out_shape) + [z3.IntSort()]))
+        def full(ix, i):
+            ix = list(ix)
+            return tuple(ix[:axis] + [i] + ix[axis:])
+        c.add(_forall_nd(out_shape, lambda *ix: z3.And(
+            F(*ix) >= 0, F(*ix) <= ext,
+            z3.Implies(F(*ix) > 0, z3.And(w0(*ix) >= 0, w0(*ix) < ext, fa(*full(ix, w0(*ix))))),
+            z3.Implies(F(*ix) < ext, z3.And(w1(*ix) >= 0, w1(*ix) < ext, z3.Not(fa(*full(ix, w1(*ix)))))))))
+        full_shape = list(a._shape)
+        if builtins.all(conc(s_) is not None for s_ in full_shape):
+            c.add(_forall_nd(full_shape, lambda *jx: z3.And(
+                z3.Implies(F(*(list(jx[:axis]) + list(jx[axis + 1:]))) == 0, z3.Not(fa(*jx))),
+                z3.Implies(F(*(list(jx[:axis]) + list(jx[axis + 1:]))) == ext, fa(*jx)))))
+        else:
+            vs = [z3.Int(fresh_name("q")) for _ in full_shape]
+            rng = z3.And([z3.And(v >= 0, v < zint(s_)) for v, s_ in zip(vs, full_shape)])
+            cellt = to_z3(fa(*vs))
+            Fi = F(*(vs[:axis] + vs[axis + 1:]))
+            body = z3.Implies(rng, z3.And(z3.Implies(Fi == 0, z3.Not(cellt)), z3.Implies(Fi == ext, cellt)))
+            # instantiate on the CELL (whenever a cell of the mask is mentioned), not on whatever z3 would pick
+            pats = [cellt] if z3.is_app(cellt) and cellt.decl().kind() == z3.Z3_OP_UNINTERPRETED else []
+            c.add(z3.ForAll(vs, body, patterns=pats) if pats else z3.ForAll(vs, body))
     if not out_shape:
         return _wrap_elem(F, elem)           # NumPy returns a scalar, not a 0-d array
     return ndarray.from_fn(content, out_shape, kind, elem)
